@@ -25,17 +25,17 @@ type Val struct {
 
 // Op is one Match* call of a generated history.
 type Op struct {
-	API   string `json:"api"` // snap | json | yaml | ssnap | sjson
-	Test  string `json:"test"`
-	File  string `json:"file,omitempty"` // Filename option ("" = unset)
-	Ext   string `json:"ext,omitempty"`
-	Upd   *bool  `json:"upd,omitempty"`
-	Val   Val    `json:"val"`
-	Fail  string `json:"fail,omitempty"` // "invalid": input is not a valid document; "matcher": a matcher fails
+	API  string `json:"api"` // snap | json | yaml | ssnap | sjson
+	Test string `json:"test"`
+	File string `json:"file,omitempty"` // Filename option ("" = unset)
+	Ext  string `json:"ext,omitempty"`
+	Upd  *bool  `json:"upd,omitempty"`
+	Val  Val    `json:"val"`
+	Fail string `json:"fail,omitempty"` // "invalid": input is not a valid document; "matcher": a matcher fails
 	// FailOnlyExec: when >= 1 the failure applies only to that execution (1-based) of the test in a
 	// process; in the other executions the same call is made without the failing matcher
-	FailOnlyExec int `json:"fail_only_exec,omitempty"`
-	Multi []Val  `json:"multi,omitempty"`
+	FailOnlyExec int   `json:"fail_only_exec,omitempty"`
+	Multi        []Val `json:"multi,omitempty"`
 }
 
 func (o Op) standalone() bool { return o.API == "ssnap" || o.API == "sjson" }
@@ -51,12 +51,15 @@ type Problem struct {
 type Sess struct {
 	Root  string
 	Store *vkit.Store
-	ord   map[string]int            // running ordinals by registry key
+	ord   map[string]int              // running ordinals by registry key
 	touch map[*vkit.T]map[string]bool // keys an execution touched (reset at its end)
 	// headers that some call of the history may address, per file path
-	Addressable map[string]map[string]bool
+	Addressable  map[string]map[string]bool
 	StrictWrites bool // judge "no write at all" by mtime/inode, not only by bytes
-	Steps       int
+	Steps        int
+	// one Config object per option set and process instead of one per call
+	ShareConfigs bool
+	cfgs         map[string]*snaps.Config
 }
 
 const defaultBase = "sess_test" // base name of this file: what Filename defaults to
@@ -75,6 +78,7 @@ func (s *Sess) NewProcess(m vkit.Mode, noColor bool) {
 	snaps.VerifSetNoColor(noColor)
 	s.ord = map[string]int{}
 	s.touch = map[*vkit.T]map[string]bool{}
+	s.cfgs = nil
 }
 
 // EndExec ends one test execution: runs the cleanups and resets the model ordinals.
@@ -87,6 +91,28 @@ func (s *Sess) EndExec(t *vkit.T) {
 }
 
 func (s *Sess) config(o Op) *snaps.Config {
+	// ShareConfigs: one Config object per option set for the whole simulated process, the
+	// way a package-level `var cfg = snaps.WithConfig(...)` is used by every test and
+	// every entry point (fresh Configs per call hide calls that write to their receiver)
+	if s.ShareConfigs {
+		k := fmt.Sprintf("%q|%q|%v", o.File, o.Ext, o.Upd != nil && *o.Upd)
+		if o.Upd == nil {
+			k += "|unset"
+		}
+		if c, ok := s.cfgs[k]; ok {
+			return c
+		}
+		if s.cfgs == nil {
+			s.cfgs = map[string]*snaps.Config{}
+		}
+		c := s.buildConfig(o)
+		s.cfgs[k] = c
+		return c
+	}
+	return s.buildConfig(o)
+}
+
+func (s *Sess) buildConfig(o Op) *snaps.Config {
 	opts := []func(*snaps.Config){snaps.Dir(s.Root)}
 	if o.File != "" {
 		opts = append(opts, snaps.Filename(o.File))
